@@ -272,12 +272,22 @@ def run_case(case: dict[str, Any]) -> dict[str, Any]:
                     and all(seed_dependent(smp) for smp in spec["samplers"]):
                 check(res["first_pert"] != first["first_pert"], "seed-ignored",
                       f"a run that differs only in the seed ({spec['seed']} -> {action['changes']['seed']}) used identical perturbations", case)
+    import logging
+
+    root_level, ropt_level = logging.getLogger().level, logging.getLogger("ropt").level
+    if case.get("debug_logging"):  # the verbosity of the process' logging says nothing about the numbers of a run
+        logging.getLogger().addHandler(logging.NullHandler())
+        logging.getLogger().setLevel(logging.DEBUG)
+        logging.getLogger("ropt").setLevel(logging.DEBUG)
     try:
         second = run_once(spec, session, case["final_reuse"], inside=case.get("inside"))
     except Exception as exc:  # noqa: BLE001
         check(False, "trace-differs", f"the second run of the same configuration (after {[a['kind'] for a in case['actions']]}, "  # noqa: FBT003
               f"reuse={case['final_reuse']}) raised {type(exc).__name__}: {exc} - the first run had ended with exit code {first['code']}", case)
         raise
+    finally:
+        logging.getLogger().setLevel(root_level)
+        logging.getLogger("ropt").setLevel(ropt_level)
     check(second["code"] == first["code"], "exit-code-differs", f"exit codes {first['code']} vs {second['code']}", case)
     check(second["calls"] == first["calls"], "trace-differs", f"{first['calls']} vs {second['calls']} evaluator calls", case)
     check(second["hash"] == first["hash"], "trace-differs",
@@ -361,7 +371,7 @@ def hypothesis_shard(item: dict[str, Any]) -> Collector:
             inside = dict(spec)
             inside.update({"seed": bump(spec["seed"], 11), "x0": [v + 0.25 for v in spec["x0"]]})
         qmc = {smp[0] for smp in spec["samplers"] if smp[0] in ("sobol", "halton", "lhs")}
-        return {"A": spec, "actions": actions, "config_as": draw(st.sampled_from(["object", "dict"])), "final_reuse": draw(st.sampled_from(["fresh", "manager", "context", "step", "default"])),
+        return {"A": spec, "actions": actions, "config_as": draw(st.sampled_from(["object", "dict"])), "debug_logging": draw(st.integers(0, 3)) == 0, "final_reuse": draw(st.sampled_from(["fresh", "manager", "context", "step", "default"])),
                 # several different QMC engines share one generator: always compare with another interpreter (hash seed)
                 "fresh_process": len(qmc) > 1 or draw(st.integers(0, item["fresh_every"])) == 0, "inside": inside}
 
